@@ -42,6 +42,38 @@ Theorem crc_spec_is_remainder : forall poly w init xorout data,
 Proof. exact crc_spec_remainder_l. Qed.
 Print Assumptions crc_spec_is_remainder.
 
+(* UNIQUENESS: two residues of degree < w congruent to the same polynomial modulo G are equal
+   (a polynomial multiple of G of degree < w is zero), so the register of crc_spec is THE remainder
+   of  init * x^n + M(x) * x^w  by G -- the catalogue definition of a non-reflected CRC. *)
+Theorem crc_residue_unique : forall poly w, 0 < w -> 0 <= poly < 2 ^ w -> forall a b x,
+  0 <= a < 2 ^ w -> 0 <= b < 2 ^ w ->
+  congG (2 ^ w + poly) a x -> congG (2 ^ w + poly) b x -> a = b.
+Proof. exact residue_unique_l. Qed.
+Print Assumptions crc_residue_unique.
+
+Theorem crc_spec_characterised : forall poly w init xorout data R',
+  0 < w -> 0 <= poly < 2 ^ w -> 0 <= init < 2 ^ w ->
+  let bits := flat_map byte_bits data in
+  0 <= R' < 2 ^ w ->
+  congG (2 ^ w + poly) R' (Z.lxor (Z.shiftl init (Z.of_nat (length bits))) (Z.shiftl (msg_poly bits) w)) ->
+  crc_spec poly w init xorout data = Z.lxor R' xorout.
+Proof. exact crc_spec_characterised_l. Qed.
+Print Assumptions crc_spec_characterised.
+
+(* TABLE-DRIVEN: the byte-at-a-time algorithm  r' = ((r << 8) mod 2^w) xor table[(r >> (w-8)) xor byte]
+   (table[b] = 8 zero-data steps from b << (w-8)) equals the bit-serial specification, any w >= 8 *)
+Theorem table_driven_equiv : forall poly w, 8 <= w -> 0 <= poly < 2 ^ w -> forall init xorout data,
+  0 <= init < 2 ^ w -> bytes_ok data = true ->
+  crc_table_driven poly w init xorout data = crc_spec poly w init xorout data.
+Proof. exact table_driven_equiv_l. Qed.
+Print Assumptions table_driven_equiv.
+
+Theorem crc_catalogue_tables : forall data, bytes_ok data = true ->
+  crc16_genibus data = crc_table_driven 4129 16 65535 65535 data /\
+  crc64_we data = crc_table_driven 4823603603198064275 64 (2 ^ 64 - 1) (2 ^ 64 - 1) data.
+Proof. exact tables_l. Qed.
+Print Assumptions crc_catalogue_tables.
+
 (* catalogue check values: "123456789" |-> 0xD64E (CRC-16/GENIBUS), 0x62EC59E3F1A4F00A (CRC-64/WE) *)
 Example crc16_check_value : crc16 9 [49;50;51;52;53;54;55;56;57] = Ok [214; 78] /\
   crc16_genibus [49;50;51;52;53;54;55;56;57] = 54862.
